@@ -16,6 +16,16 @@ import (
 // objects); the code under test sees their documented behaviour exactly.
 func NativeTable() *engine.NativeTable {
 	f := func(v interface{}) reflect.Value { return reflect.ValueOf(v) }
+	nt := nativeTable(f)
+	for name, fn := range generatedNativeFuncs {
+		if _, ok := nt.Funcs[name]; !ok {
+			nt.Funcs[name] = fn
+		}
+	}
+	return nt
+}
+
+func nativeTable(f func(v interface{}) reflect.Value) *engine.NativeTable {
 	return &engine.NativeTable{
 		Pkgs: map[string]bool{"go/types": true, "go/token": true, "go/constant": true, "regexp": true},
 		Funcs: map[string]reflect.Value{
